@@ -361,8 +361,21 @@ def run_c15(sc):
 
 # --------------------------------------------------------------------------- C16
 
+def _frac_bits(x):
+    return Fraction(x).denominator.bit_length() - 1
+
+
 def _exact_add(x, b):
-    return Fraction(x) + Fraction(b) == Fraction(x + b)
+    """x -> x + b is exact *with slack*: integer bits + fractional bits of x, b and x + b leave 3 spare
+    mantissa bits, so the next few levels of midpoints computed from these numbers are exact in both
+    worlds too (the 'bit budget' of DESIGN 5.16).  Without the slack two correct runs may round a
+    midpoint of adjacent floats differently before and after the translation."""
+    y = x + b
+    if Fraction(x) + Fraction(b) != Fraction(y):
+        return False
+    q = max(_frac_bits(x), _frac_bits(b), _frac_bits(y))
+    m = max(math.frexp(max(abs(x), abs(b), abs(y), 1.0))[1], 1)
+    return q + m + 3 <= 53
 
 
 def run_c16(sc):
@@ -401,7 +414,12 @@ def run_c16(sc):
             if exact and not fell:
                 ok_map = _exact_add(s * x, bb) if bb else True
                 if not ok_map:
-                    fell = True   # the map itself rounds here: judge this run by tolerance from now on
+                    fell = True   # outside the bit budget: judge this run by tolerance from now on
+                    if sc.get("coord_sensitive"):
+                        # Zooming / default-delta DOO compare coordinates: a rounding difference may legitimately
+                        # flip an exact tie, so such runs are judged in the exact class only, up to here
+                        stats["exact-twins-stopped-at-bit-budget"] += 1
+                        return _result(sc, rounds, dg, seam, None, stats)
                 elif y != want:
                     return _result(sc, rounds, dg, seam, ("C16", clause, "event %d: image of %s under x -> %r*x + %r is %s, the run on the image domain gave %s" % (
                         k + 1, fhex(x), s, bb, fhex(want), fhex(y)), k + 1))
